@@ -75,6 +75,11 @@ def initial_cases(tier, seed):
         if order == 3 and tier == "quick" and cls != "ARBF":
             continue
         cases.append({"kind": "spline-additive", "cls": cls, "order": order, "prod": prod, "cs": 0})
+        # index layouts: the order of the feature indexes of the two factors relative to each other and within the
+        # additive factor (ascending, subset-RBF index after the additive ones, unsorted list)
+        if order <= 2 and (cls == "ARBF" or tier == "thorough"):
+            for layout in (("srbf-last", "srbf-slice-after", "arbf-unsorted", "interleaved") if prod else ("arbf-unsorted", "arbf-list")):
+                cases.append({"kind": "spline-additive", "cls": cls, "order": order, "prod": prod, "cs": 0, "layout": layout})
     for cls in ("ARBFV2", "AddLLRBF", "AddRQ"):
         cases.append({"kind": "k0", "cls": cls})
     for c in cases:
@@ -287,7 +292,15 @@ def run_spline_additive(case):
     if case["cls"] != "ARBF":
         kw["alpha"] = 1.6
     ck = "kind=spline-additive;cls=%s;order=%d;prod=%s" % (case["cls"], order, case["prod"])
-    if case["prod"]:
+    layout = case.get("layout")
+    if layout:
+        ck += ";layout=" + layout
+        sidx, aidx = {"srbf-last": ([3], [0, 1]), "srbf-slice-after": (slice(2, 3), slice(0, 2)), "arbf-unsorted": ([0], [3, 1]),
+                      "interleaved": ([2], [4, 0, 3]), "arbf-list": (None, [1, 2, 4])}[layout]
+        na = len(np.arange(NFEAT)[aidx])
+        a = cls(aidx, length_scale=LS[1:1 + na] * np.array([1.0, 1.7, 0.6])[:na], **kw)
+        kernel = K.SubsetRBF(sidx, length_scale=LS[:1] * 0.8) * a if case["prod"] else a
+    elif case["prod"]:
         a = cls(slice(1, 4), length_scale=LS[1:4], **kw)
         kernel = K.SubsetRBF(slice(0, 1), length_scale=LS[:1]) * a
     else:
